@@ -12,7 +12,8 @@ Line-protocol driver for the access-level model (C09). Stateless.
                                                    | ok status <code> | ok foreign
   bits   = 13 characters 0/1: frontend sequences history backup firmware slaves discover webhooks listen reverse
            system debug vports
-  auth   = nohdr0 | nohdr1 (admin password empty) | invalid | viewonly | normal | admin
+  auth   = <cred>@<pw>: cred = nohdr | invalid | viewonly | normal | admin (valid token of that user);
+           pw = 3 characters 0/1: the admin / normal / view-only password is empty
   body   = json | badct | malformed
   sess   = s1 (no Session-Id header or a well-formed one) | s0 (malformed Session-Id)
   path   = request path, starts with "/", no whitespace
@@ -28,13 +29,22 @@ def methodOf : String → Method
   | "GET" => .GET | "HEAD" => .HEAD | "POST" => .POST | "DELETE" => .DELETE | "PATCH" => .PATCH | "PUT" => .PUT
   | "OPTIONS" => .OPTIONS | _ => .other
 
-def authOf : String → Option Auth
-  | "nohdr0" => some (.noHeader false)
-  | "nohdr1" => some (.noHeader true)
+def credOf : String → Option Cred
+  | "nohdr" => some .noHeader
   | "invalid" => some .invalid
   | "viewonly" => some (.valid .viewonly)
   | "normal" => some (.valid .normal)
   | "admin" => some (.valid .admin)
+  | _ => none
+
+/-- `<cred>@<pw>`: pw = 3 characters 0/1 = admin / normal / view-only password is empty. -/
+def authOf (s : String) : Option Auth :=
+  match s.splitOn "@" with
+  | [c, p] =>
+    match credOf c, p.toList with
+    | some c, [a, n, v] =>
+      if [a, n, v].all (fun ch => ch == '0' || ch == '1') then some ⟨⟨a == '1', n == '1', v == '1'⟩, c⟩ else none
+    | _, _ => none
   | _ => none
 
 def bodyOf : String → Option Body
